@@ -38,13 +38,15 @@ func run(c *lib.Ctx) {
 	replay := false
 	if c.Replay != nil {
 		var w struct {
-			Spec *Spec `json:"spec"`
+			Spec  *Spec  `json:"spec"`
+			Prior []Spec `json:"after_logins"`
 		}
 		if err := json.Unmarshal(c.Replay, &w); err != nil || w.Spec == nil {
 			c.Inconclusive("replay witness does not contain a case spec")
 			return
 		}
-		cases = []Spec{*w.Spec}
+		// the accepted logins that preceded the case in its teamserver come first
+		cases = append(append([]Spec{}, w.Prior...), *w.Spec)
 		replay = true
 	} else {
 		all := buildCases(c.Seed, c.Thorough())
